@@ -305,7 +305,7 @@ std::string render_xml(const Model& m, const XmlKnobs& k, Rng& rng)
             }
         }
         x.nl();
-        x.open("init", {{"ref", t.locs[t.init].id}}, false, true);
+        x.open("init", {{"ref", t.init_override.empty() ? t.locs[t.init].id : t.init_override}}, false, true);
         for (auto& e : t.edges) {
             x.nl();
             std::vector<std::pair<std::string, std::string>> at;
@@ -320,7 +320,7 @@ std::string render_xml(const Model& m, const XmlKnobs& k, Rng& rng)
             x.nl();
             x.open("source", {{"ref", e.srcb ? t.bps[e.src].id : t.locs[e.src].id}}, false, true);
             x.nl();
-            x.open("target", {{"ref", e.dstb ? t.bps[e.dst].id : t.locs[e.dst].id}}, false, true);
+            x.open("target", {{"ref", !e.dst_id_override.empty() ? e.dst_id_override : (e.dstb ? t.bps[e.dst].id : t.locs[e.dst].id)}}, false, true);
             x.label("select", e.select);
             x.label("guard", e.guard);
             x.label("synchronisation", e.sync);
@@ -433,7 +433,7 @@ std::string render_xta(const Model& m)
             if (as_list && !first)
                 os << ";\n";
         }
-        os << "init " << t.locs[t.init].docname() << ";\n";
+        os << "init " << (t.init_override.empty() ? t.locs[t.init].docname() : "_" + t.init_override) << ";\n";
         if (!t.edges.empty()) {
             os << "trans\n";
             for (size_t i = 0; i < t.edges.size(); ++i) {
